@@ -101,11 +101,15 @@ structure Dir where
 /-- size of the local `char name[256]` -/
 def nameBufSize : Nat := 256
 
+/-- an empty setting means the current directory: `""` is replaced by `"."`
+(the listing of `""` already is the listing of `"."`) -/
+def normIns (d : Dir) : Dir := if d.path.isEmpty then { d with path := [cDot] } else d
+
 /-- `libxmp_get_instrument_path`: the context's setting wins over the environment -/
 def instrumentPath (ctxPath envPath : Option Dir) : Option Dir :=
   match ctxPath with
-  | some d => some d
-  | none => envPath
+  | some d => some (normIns d)
+  | none => envPath.map normIns
 
 /-- `libxmp_find_instrument_file(m, path_dest, path_dest_len, ins_name)`;
 `none` = 0 (nothing to open), `some p` = 1 with `path_dest = p`.
